@@ -7,6 +7,7 @@
   Model/BcjRiscv.lean, Model/Simple.lean (simple_coder.c buffering, one-shot API).
 -/
 import XzVerif.Model.Simple
+import XzVerif.Gen.C15
 import XzVerif.Lemmas.Delta
 import XzVerif.Lemmas.BcjBlocks
 import XzVerif.Lemmas.BitWordsBcj
@@ -345,6 +346,34 @@ theorem riscv_roundtrip : RoundTrip riscvCode 2 := by
 example : riscvCode true 0x1000#32 [0x97, 0x50, 0x34, 0x12, 0xE7, 0x80, 0x60, 0xFD] = ([0x17, 0x71, 0x0E, 0x08, 0x12, 0x34, 0x5F, 0xD6], 8) := by
   decide +kernel
 example : riscvCode false 0x1000#32 [0x17, 0x71, 0x0E, 0x08, 0x12, 0x34, 0x5F, 0xD6] = ([0x97, 0x50, 0x34, 0x12, 0xE7, 0x80, 0x60, 0xFD], 8) := by
+  decide +kernel
+
+/-! ## Bridges to what the code under test does today (lean/XzVerif/Gen/C15.lean is regenerated on every check by running it) -/
+
+open XzVerif.Simple in
+/-- `lzma_simple_coder_init` parameters of the eight filters (alignment of the start offset, buffer = 2 × unfiltered_max), encoder and decoder -/
+theorem gen_filter_params :
+    Gen.C15.filterParams = [FilterId.x86, .powerpc, .ia64, .arm, .armthumb, .sparc, .arm64, .riscv].map
+      (fun f => (f.alignment, 2 * f.unfilteredMax, f.alignment, 2 * f.unfilteredMax)) := by decide
+
+/-- delta distances accepted by the init function are exactly 1..256 -/
+theorem gen_delta_dist :
+    Gen.C15.deltaDistMin = 1 ∧ Gen.C15.deltaDistMax = 256 ∧ Gen.C15.deltaAccepted = (List.range 261).filter Delta.distValid := by
+  decide +kernel
+
+/-- IA-64 template → slot mask, as observed through `ia64_code` -/
+theorem gen_ia64_table : Gen.C15.ia64Masks = ia64BranchTable := by decide
+
+/-- x86: which `prev_mask` values let a candidate with a 00 byte 4 be converted, and which operand byte the inner loop inspects -/
+theorem gen_x86_tables :
+    (Gen.C15.x86Convertible.all fun (m, c) => x86Convertible 0 (BitVec.ofNat 32 m) == c) = true
+    ∧ (Gen.C15.x86Inspected.all fun (m, k) => 4 - maskToBitNumber.getD (m / 2) 0 == k) = true := by
+  decide +kernel
+
+/-- the per-word transforms on the regenerated grids (class members, near misses, extreme immediates × five program counters) -/
+theorem gen_word_grids :
+    gridOK armCode Gen.C15.armGrid = true ∧ gridOK arm64Code Gen.C15.arm64Grid = true ∧ gridOK powerpcCode Gen.C15.powerpcGrid = true
+    ∧ gridOK sparcCode Gen.C15.sparcGrid = true ∧ gridOK armthumbCode Gen.C15.armthumbGrid = true := by
   decide +kernel
 
 end XzVerif.C15
